@@ -848,11 +848,12 @@ func (l *LineWrapper) fillUntil(runs RunIterator, option breakOption) {
 
 			currRunIndex, run, more = runs.Peek()
 			continue
-		} else if l.lineStartRune > run.Runes.Offset {
+		} else if isFirstInLine := l.scratch.candidateLen() == 0; l.lineStartRune > run.Runes.Offset || isFirstInLine {
 			// If part of this run has already been used on a previous line, trim
 			// the runes corresponding to those glyphs off.
+			// A run starting the line is cut as well, even when it is used entirely,
+			// so that its leading letter spacing is removed like for any other line start.
 			l.mapper.mapRun(currRunIndex, run)
-			isFirstInLine := l.scratch.candidateLen() == 0
 			run = cutRun(run, l.mapper.mapping, l.lineStartRune, run.Runes.Count+run.Runes.Offset, isFirstInLine)
 		}
 		// While the run being processed doesn't contain the current line breaking
